@@ -1,6 +1,6 @@
 (** C11 - Identifiers are never reused across restarts.
     Only statements closed by [exact]; the proofs live in HQ.Journal.IdProofs / HQ.Journal.PruneProofs. *)
-From HQ Require Import Base.Prelude Journal.Event Journal.Restore Journal.IdProofs.
+From HQ Require Import Base.Prelude Journal.Event Journal.Restore Journal.Prune Journal.IdProofs Journal.PruneProofs.
 Open Scope N_scope.
 
 (** For ANY event list (no reachability needed): the next job id ([r_job_counter]), the next worker
@@ -27,6 +27,28 @@ Theorem C11_monotone_over_restarts : forall evs evs' r r',
   /\ r_queue_counter r <= r_queue_counter r'.
 Proof. exact ids_monotone_append. Qed.
 
+(** Composed with prune: the counters of the pruned journal are never HIGHER than those of the
+    original (C12_prune_equiv_partial) - and they can be strictly lower: prune removes every record
+    of completed jobs / disconnected workers, so a restart after a prune may issue their ids again
+    (known finding F8-prune-id-highwater). *)
+Definition C11_prune_keeps_ids_full : Prop := forall lj lw evs r r',
+  restore evs = Ok r -> restore (prune lj lw evs) = Ok r' ->
+  r_job_counter r' = r_job_counter r /\ r_worker_counter r' = r_worker_counter r.
+
+Theorem C11_prune_keeps_ids_refuted :
+  exists evs lj lw r r', restore evs = Ok r /\ restore (prune lj lw evs) = Ok r'
+    /\ r_job_counter r' < r_job_counter r /\ r_worker_counter r' < r_worker_counter r.
+Proof. exact prune_keeps_ids_refuted. Qed.
+
+(** The queue id counter does survive pruning. *)
+Theorem C11_prune_keeps_queue_ids : forall lj lw evs r,
+  restore evs = Ok r -> Forall (keeps_loss lw) evs ->
+  exists r', restore (prune lj lw evs) = Ok r' /\ r_queue_counter r' = r_queue_counter r /\ r_uid r' = r_uid r.
+Proof.
+  exact (fun lj lw evs r H K => match prune_equiv lj lw evs r H K with
+         | ex_intro _ r' (conj A (conj _ (conj _ (conj U (conj _ (conj Q _)))))) => ex_intro _ r' (conj A (conj Q U)) end).
+Qed.
+
 Check C11_ids_fresh : forall evs r, restore evs = Ok r -> forall e, In e evs ->
     (forall j, In j (ev_job_ids e) -> j < r_job_counter r)
     /\ (forall w, In w (ev_worker_ids e) -> w < r_worker_counter r + 1)
@@ -35,3 +57,5 @@ Check C11_ids_fresh : forall evs r, restore evs = Ok r -> forall e, In e evs ->
 Print Assumptions C11_ids_fresh.
 Print Assumptions C11_uid_kept.
 Print Assumptions C11_monotone_over_restarts.
+Print Assumptions C11_prune_keeps_ids_refuted.
+Print Assumptions C11_prune_keeps_queue_ids.
